@@ -248,7 +248,7 @@ def interface_api_cases(case):
 
 def scheduler_scenarios(tier):
     rnd = random.Random(7)
-    n = 5 if tier == "quick" else 25
+    n = 8 if tier == "quick" else 40
     scen = []
     for k in range(n):
         ns = rnd.choice([1, 2, 3, 4])
@@ -260,8 +260,11 @@ def scheduler_scenarios(tier):
             cap_kwh = 32 * 208 * 5 / 60000.0 * dur
             req = round(cap_kwh * rnd.choice([0.2, 0.5, 0.8]), 6)
             sess.append({"st": s, "arr": arr, "dep": arr + dur, "req": req})
+        # how the network came to have no constraints: never had any / all were removed again / either of
+        # those written to JSON and loaded back
         scen.append({"kind": "free-network-run", "angles": [30, -90, 150, 30][:ns], "sessions": sess,
-                     "algo": ["uncontrolled", "fcfs", "edf", "llf", "rr"][k % 5]})
+                     "algo": ["uncontrolled", "fcfs", "edf", "llf", "rr"][k % 5],
+                     "origin": ["never", "removed", "removed+json", "never+json"][(k // 5 + k) % 4]})
     return scen
 
 
@@ -280,6 +283,13 @@ def replay_free(sc):
             ids = IDS[:len(sc["angles"])]
             for sid, a in zip(ids, sc["angles"]):
                 net.register_evse(EVSE(sid, max_rate=32), 208, a)
+            origin = sc.get("origin", "never")
+            if origin.startswith("removed"):
+                from acnportal.acnsim.network import Current
+                net.add_constraint(Current(list(ids)), 50, name="tmp")
+                net.remove_constraint("tmp")
+            if origin.endswith("+json"):
+                net = ChargingNetwork.from_json(net.to_json())
             evs = []
             for i, s in enumerate(sc["sessions"]):
                 evs.append(EV(s["arr"], s["dep"], s["req"], ids[s["st"]], "sess-%d" % i, Battery(s["req"], 0, 100)))
